@@ -117,6 +117,8 @@ func (e *env) replayOne(in map[string]any) {
 		e.runExtract(extractFromJSON(in))
 	case "install":
 		e.runInstall(installFromJSON(in))
+	case "history":
+		e.runHistory(historyFromJSON(in))
 	case "hwm":
 		e.runHwm(hwmFromJSON(in))
 	case "crash":
@@ -134,8 +136,14 @@ func (e *env) generated() {
 			e.runClean(genName(r, 24, true))
 		case 2, 3, 4, 5:
 			e.runExtract(genExtract(r))
-		case 6, 7, 8:
+		case 6, 7:
 			e.runInstall(genInstall(r))
+		case 8:
+			if i%20 == 8 {
+				e.runHistory(genHistory(r))
+			} else {
+				e.runInstall(genInstall(r))
+			}
 		default:
 			e.runHwm(genHwm(r))
 		}
@@ -149,6 +157,11 @@ func (e *env) lattice(part, parts int) {
 	for k, c := range cs {
 		if k%parts == part {
 			e.runInstall(c)
+		}
+	}
+	for k, h := range historyLattice() {
+		if k%parts == part {
+			e.runHistory(h)
 		}
 	}
 }
